@@ -109,6 +109,7 @@ def load_module(it, dotted):
     it.frames.append(fn)
     it.env_stack.append(env)
     saved_pc = len(it.path.pc)
+    n_events0 = len(it.path.events)
     try:
         for st in tree.body:
             try:
@@ -124,6 +125,8 @@ def load_module(it, dotted):
     finally:
         it.frames.pop()
         it.env_stack.pop()
+        # import-time effects are not part of any function's trace (module import-time execution is dropped, DESIGN 2.4)
+        del it.path.events[n_events0:]
     return m
 
 
